@@ -166,7 +166,16 @@ fn checked_start_time(data: &Data, start: Bound<u64>) -> Result<Timestamp, Error
     let range = data.range().ok_or(Error::EmptyFile)?;
     let start_ts = match start {
         Bound::Included(ts) => ts,
-        Bound::Excluded(ts) => ts - 1,
+        // first timestamp that is strictly after ts
+        Bound::Excluded(ts) => match ts.checked_add(1) {
+            Some(ts) => ts,
+            None => {
+                return Err(Error::StartAfterData {
+                    requested: ts,
+                    data_range: range,
+                })
+            }
+        },
         Bound::Unbounded => *range.start(),
     };
     let start_ts = start_ts.max(*range.start());
@@ -183,7 +192,8 @@ fn checked_end_time(data: &Data, end: Bound<u64>) -> Result<Timestamp, Error> {
     let range = data.range().ok_or(Error::EmptyFile)?;
     let end_ts = match end {
         Bound::Included(ts) => ts,
-        Bound::Excluded(ts) => ts - 1,
+        // last timestamp that is strictly before ts
+        Bound::Excluded(ts) => ts.checked_sub(1).ok_or(Error::StopBeforeData)?,
         Bound::Unbounded => *range.end(),
     };
     let end_ts = end_ts.min(*range.end());
